@@ -72,7 +72,12 @@ def check(R, F):
                 g = [x for x in paths.dom_guards(hm, b) if re.match(r'^discr\(arg3\.transport\) in \[\d\]$', x)]
                 for x in g[-1:]:
                     vals[tv[int(re.search(r'\[(\d)\]', x).group(1))]] = v
-    R.require(vals.get('Udp') == '512_usize' and vals.get('Tcp') in ('u16::MAX', 'cast(u16::MAX)', '65535_usize') and len(vals) == 2, 'initial-limit', HANDLE_MESSAGE + '|by-transport', hm.where(wn[0][0]) if wn else hm.where(), 'TCP 65535, UDP 512', 'initial limits by transport: %s' % vals)
+    def _num(v):
+        m = re.match(r'^(?:cast\()?(\d+)_u\w+\)?$', v or '')
+        if m:
+            return int(m.group(1))
+        return 65535 if v in ('u16::MAX', 'cast(u16::MAX)') else None
+    R.require(_num(vals.get('Udp')) == 512 and _num(vals.get('Tcp')) == 65535 and len(vals) == 2, 'initial-limit', HANDLE_MESSAGE + '|by-transport', hm.where(wn[0][0]) if wn else hm.where(), 'TCP 65535, UDP 512', 'initial limits by transport: %s' % vals)
     # ---- (b)
     sl = [(fn, b, t) for fn in server_fns(F) for b, t in calls_in(fn, W + 'set_limit')]
     ok = len(sl) == 1 and sl[0][0].gpath == HMWC
